@@ -539,6 +539,35 @@ Definition merged_query_verdict (nums : list N) (q : query) : N :=
   | _ => 2
   end.
 
+(* Y1 (W1 'no Spec for the merged fetch'): second clause next to [merged_query_verdict] (which Cxx_Audit2 speaks about
+   and which reports a stored block that is answered not-found as a MISMATCH, code 1, i.e. never with a concrete
+   replay).  "Fetching by number from a merged-blocks store returns a block of the requested height or not-found",
+   with not-found meaning what it says.  Given the bundle contents [nums] (the numbers of the blocks written into the
+   one bundle file, position = clean block index), for EVERY queried number:
+     complete  not-found is rejected when a block of the bundle has that number (also the first and the last one);
+     exact     a found answer is clean block i (the harness reports IRef i only after proto.Equal with the stored
+               block), i is the FIRST position holding that number, and the number is the requested one; a number
+               that no block of the bundle has (a gap, a number beyond the last block, a number of another bundle)
+               must be answered not-found;
+     an error or an empty result is never acceptable on an undamaged bundle. *)
+Fixpoint first_index (nums : list N) (n : N) (i : N) : option N :=
+  match nums with
+  | [] => None
+  | x :: r => if x =? n then Some i else first_index r n (i + 1)
+  end.
+
+Definition merged_exact_y1 (nums : list N) (q : query) : bool :=
+  match q_res q, first_index nums (q_num q) 0 with
+  | QPanic, _ | QHang, _ => true           (* code 4 comes from merged_query_verdict *)
+  | QNotFound, None => true
+  | QNotFound, Some _ => false
+  | QBlock (IRef i), Some j => i =? j
+  | _, _ => false
+  end.
+
+Definition merged_query_verdict_y1 (nums : list N) (q : query) : N :=
+  N.lor (merged_query_verdict nums q) (if merged_exact_y1 nums q then 0 else 2).
+
 (* ------------------------------------------------------------------ verdicts *)
 
 Definition c16_verdict (k : c16_case) : N :=
@@ -552,7 +581,7 @@ Definition c16_verdict (k : c16_case) : N :=
       name_verdict num id parent lib suffix o_name o_tid o_tparent o_parsed panic
   | CParse s o_parsed o_re panic => parse_verdict s o_parsed o_re panic
   | CFetch store msgs ids qs => fetch_verdict store msgs ids qs
-  | CMerged nums qs => agg (map (merged_query_verdict nums) qs) false false 0
+  | CMerged nums qs => agg (map (merged_query_verdict_y1 nums) qs) false false 0
   end.
 
 Definition c16_verdicts (l : list c16_case) : list (N * N) := nonzero (map c16_verdict l).
